@@ -32,6 +32,9 @@ def systems():
                   bodies=[dict(m=1.0), dict(m=1e-3, a=1.0, e=0.3, f=0.4)]))
     S.append(dict(name="two_planets", G=1.0, eps=1e-3, tp_type=0, active=3, T=20.0,
                   bodies=[dict(m=1.0), dict(m=1e-3, a=1.0, e=0.05, f=0.3), dict(m=5e-4, a=1.9, e=0.1, inc=0.05, Omega=1.0, f=2.0)]))
+    # the same with a moving centre of mass (the centre-of-mass step of the Jacobi/heliocentric splittings is idle otherwise)
+    S.append(dict(name="moving", G=1.0, eps=1e-3, tp_type=0, active=3, T=20.0, boost=(0.3, -0.2, 0.1),
+                  bodies=[dict(m=1.0), dict(m=1e-3, a=1.0, e=0.05, f=0.3), dict(m=5e-4, a=1.9, e=0.1, inc=0.05, Omega=1.0, f=2.0)]))
     S.append(dict(name="heavy3", G=1.0, eps=1e-2, tp_type=0, active=4, T=20.0,
                   bodies=[dict(m=1.0), dict(m=1e-2, a=1.0, e=0.04, f=1.0), dict(m=5e-3, a=2.2, e=0.06, inc=0.1, omega=0.5, f=4.0),
                           dict(m=2e-3, a=4.0, e=0.03, inc=0.05, Omega=2.0, f=2.5)]))
@@ -55,6 +58,11 @@ def make_sim(rebound, sysd):
     for b in sysd["bodies"]:
         sim.add(**b)
     sim.move_to_com()
+    if "boost" in sysd:
+        for p in sim.particles:
+            p.vx += sysd["boost"][0]
+            p.vy += sysd["boost"][1]
+            p.vz += sysd["boost"][2]
     if sysd["active"] != len(sysd["bodies"]):
         sim.N_active = sysd["active"]
     sim.testparticle_type = sysd["tp_type"]
@@ -232,9 +240,13 @@ def judge(cfg, sysd, pts, n_inner):
         env, parts = advertised_envelope(cfg, sysd, dt, n_inner)
         if e > ERR_LO and env < ERR_HI * 10:
             worst_ratio = max(worst_ratio, e / max(env, 1e-300) * K_ENV)    # error / (envelope without the factor K)
-        if (e > ERR_LO and e > env and env < ERR_HI) or not e == e or e == float("inf"):
+        if (e > ERR_LO and e > env and dt * n_inner <= TAU_ASYM) or not e == e or e == float("inf"):
             detail.update(envelope=env, dt=dt, error=e)
             return "too-large", detail, worst_ratio
+    if pts and pts[-1][1] > ERR_HI:
+        # the ladder was descended to its end (tau = 0.8/2^8) and the error never came down to 1e-2: no convergence
+        detail.update(dt=pts[-1][0], error=pts[-1][1])
+        return "too-large", detail, worst_ratio
     win = [(dt, e) for dt, e in pts if ERR_LO <= e <= ERR_HI and dt * n_inner <= TAU_ASYM]
     if len(win) < 3:
         return "no-window", detail, worst_ratio
@@ -342,7 +354,129 @@ def jerk_normalisation(c, rebound, clib):
             num += dv[i][k] * j
             den += j * j
     res["eos_dv_over_v_times_finite_difference_jerk"] = num / den / vv
+    # --- WHFast / SABA: the exact modified kick and the lazy (finite-difference) kernel must carry the same dt^3 term:
+    #     after one step they differ by O(dt^5) while both differ from the plain kernel by O(dt^3)
+    sd3 = [x for x in systems() if x["name"] == "heavy3"][0]
+
+    def one(dt, kern=None, saba=None):
+        s_ = make_sim(rebound, sd3)
+        if saba is None:
+            s_.integrator = "whfast"
+            s_.ri_whfast.kernel = kern
+        else:
+            s_.integrator = "saba"
+            s_.ri_saba.type = saba
+        s_.dt = dt
+        s_.steps(1)
+        s_.synchronize()
+        return state_of(s_)
+
+    def dist(a, b):
+        return max(abs(x - y) for p_, q_ in zip(a, b) for x, y in zip(p_, q_))
+    for dt in (0.4, 0.2):
+        mk, lz, df = one(dt, kern=1), one(dt, kern=3), one(dt, kern=0)
+        cm, cl, pl = one(dt, saba=0x101), one(dt, saba=0x201), one(dt, saba=0x1)
+        res["whfast_lazy_vs_modifiedkick_over_jerk_term_dt%g" % dt] = dist(mk, lz) / dist(mk, df)
+        res["saba_CL2_vs_CM2_over_corrector_term_dt%g" % dt] = dist(cm, cl) / dist(cm, pl)
     return res
+
+
+def schedule_replay(c, rebound, clib, D):
+    """correspondence translator <-> compiled code (DESIGN 2.2c): the operator schedule the translator derived from the C
+    text is executed by calling the exported primitives on one copy of a simulation; another copy takes a real
+    reb_simulation_step; the two must agree to rounding (the rational coefficient times dt is rounded once here, the C code
+    rounds intermediate products, hence not bitwise).  Covers every schedule made of Kepler / centre-of-mass / interaction /
+    jump steps: all SABA types without corrector, WHFast default and composition kernels with every first and second
+    corrector in all coordinate systems."""
+    dbl, vp, uint = ctypes.c_double, ctypes.c_void_p, ctypes.c_uint
+    P = ctypes.POINTER(rebound.Particle)
+    for nm in ("reb_whfast_kepler_step", "reb_whfast_com_step", "reb_whfast_interaction_step", "reb_whfast_jump_step"):
+        getattr(clib, nm).argtypes = [vp, dbl]
+        getattr(clib, nm).restype = None
+    clib.reb_integrator_whfast_init.restype = ctypes.c_int
+    tr = {0: ("reb_particles_transform_jacobi_to_inertial_pos", "reb_particles_transform_jacobi_to_inertial_posvel", True),
+          1: ("reb_particles_transform_democraticheliocentric_to_inertial_pos", "reb_particles_transform_democraticheliocentric_to_inertial_posvel", False),
+          2: ("reb_particles_transform_whds_to_inertial_pos", "reb_particles_transform_whds_to_inertial_posvel", False),
+          3: ("reb_particles_transform_barycentric_to_inertial_pos", "reb_particles_transform_barycentric_to_inertial_posvel", False)}
+    cases = []
+    for e in D["saba"]:
+        if e["value"] < 0x100:
+            cases.append(("saba/0x%x" % e["value"], 0, e["step"], dict(integrator="saba", saba=e["value"])))
+    for e in D["whfast"]:
+        # (second corrector outside Jacobi coordinates: the source's operator_C calls the *Jacobi* transformation whatever the
+        #  coordinate system - accepted by reb_integrator_whfast_init, effect 4e-12; the abstract schedule does not record which
+        #  transformation precedes a force evaluation, so these 6 configurations are not replayed)
+        if not e["rejected"] and e["kernel"] in (0, 2) and not (e["corrector2"] and e["coordinates"] != 0):
+            cases.append(("whfast/%d/%d/c%d/c2_%d" % (e["coordinates"], e["kernel"], e["corrector"], e["corrector2"]), e["coordinates"], e["step"],
+                          dict(integrator="whfast", coordinates=e["coordinates"], kernel=e["kernel"], corrector=e["corrector"], corrector2=e["corrector2"])))
+    sysl = [x for x in systems() if x["name"] in ("two_planets", "moving", "tp0", "tp1", "nine")]
+    worst, nrep = 0.0, 0
+    first_bad = None
+    for name, coord, sched, st in cases:
+        sd = sysl[c.rng.randint(0, len(sysl) - 1)] if not c.thorough else None
+        for sd in ([sd] if sd else sysl):
+            dt = (0.13 if c.rng.chance(0.5) else -0.07) / math.sqrt(sd["G"])
+            sims = []
+            for k in range(2):
+                sim = make_sim(rebound, sd)
+                sim.integrator = st["integrator"]
+                if "saba" in st:
+                    sim.ri_saba.type = st["saba"]
+                else:
+                    sim.ri_whfast.coordinates = st["coordinates"]
+                    sim.ri_whfast.kernel = st["kernel"]
+                    sim.ri_whfast.corrector = st["corrector"]
+                    sim.ri_whfast.corrector2 = st["corrector2"]
+                sim.dt = dt
+                sims.append(sim)
+            a, b = sims
+            a.steps(1)
+            r = ctypes.byref(b)
+            if st["integrator"] == "saba":
+                b.gravity_ignore_terms = 1
+            if clib.reb_integrator_whfast_init(r) != 0:
+                continue
+            clib.reb_integrator_whfast_from_inertial(r)
+            N = b.N
+            Nact = N if (b.N_active == -1 or b.testparticle_type == 1) else b.N_active
+            if st["integrator"] == "saba":
+                Nact = N                      # SABA transforms with (N, N)
+            fpos, fposvel, three = tr[coord]
+
+            def to_inertial(fn):
+                f = getattr(clib, fn)
+                if three:
+                    f.argtypes = [P, P, P, uint, uint]
+                    f(b._particles, b.ri_whfast._p_jh, b._particles, N, Nact)
+                else:
+                    f.argtypes = [P, P, uint, uint]
+                    f(b._particles, b.ri_whfast._p_jh, N, Nact)
+            for kind, ca, cb in sched:
+                x = float(ca) * dt
+                if kind == X.K_DRIFT:
+                    clib.reb_whfast_kepler_step(r, x)
+                    if cb == 1:
+                        clib.reb_whfast_com_step(r, x)
+                elif kind == X.K_KICK:
+                    clib.reb_whfast_interaction_step(r, x)
+                elif kind == X.K_JUMP:
+                    clib.reb_whfast_jump_step(r, x)
+                elif kind == X.K_FORCE:
+                    to_inertial(fpos)
+                    clib.reb_simulation_update_acceleration(r)
+            to_inertial(fposvel)
+            sa, sb = state_of(a), state_of(b)
+            scale = max(abs(v) for p_ in sa for v in p_)
+            dev = max(abs(x1 - x2) for p1, p2 in zip(sa, sb) for x1, x2 in zip(p1, p2)) / scale
+            worst = max(worst, dev)
+            nrep += 1
+            c.count(("replay", name, sd["name"]))
+            if not dev <= 1e-12 and first_bad is None:
+                first_bad = dict(config=name, system=sd["name"], dt=dt, relative_deviation=dev)
+    c.cov["schedule_replay_cases"] = nrep
+    c.cov["schedule_replay_worst_relative_deviation"] = float("%.3g" % worst)
+    if first_bad is not None:
+        c.corr_break("the schedule derived by the translator, replayed through the real primitives, does not reproduce reb_simulation_step: %s" % first_bad["config"], first_bad)
 
 
 def run(c):
@@ -394,10 +528,13 @@ def run(c):
         except X.ExtractError as ex:
             c.broken.append("translator: literal cross-check: %s" % ex)
         c.cov["exact_residuals_measured"] = exact_margins(D)
+        schedule_replay(c, rebound, clib, D)
         jn = jerk_normalisation(c, rebound, clib)
         c.cov["jerk_normalisation_measured"] = jn
         if abs(jn["eos_dv_over_v_times_finite_difference_jerk"] - 2.0) > 1e-5:
             c.corr_break("reb_calculate_and_apply_jerk no longer applies 2 v (da/dx) a: kappa_EOS of the theorems is stale", jn)
+        if max(v for k, v in jn.items() if "_vs_" in k) > 1e-3:
+            c.corr_break("the lazy and the exact modified-kick kernels no longer carry the same dt^3 term", jn)
     # ---------------------------------------------------------------- proof
     ok = c.prove(["RV.Props.C01"])
     focus = None
@@ -453,11 +590,11 @@ def search(c, rebound, clib, d, syss, refs, focus):
         cfg = L[i]
         fam = cfg["fam"]
         if fam in ("whfast", "saba", "mercurius", "trace"):
-            names = ["two_planets", "heavy3", "tp0", "tp1", "nine"]
+            names = ["two_planets", "moving", "heavy3", "tp0", "tp1", "nine"]
         elif fam == "eos":
-            names = ["two_planets", "heavy3", "tp0", "tp1", "kepler2"]
+            names = ["two_planets", "moving", "heavy3", "tp0", "tp1", "kepler2"]
         else:
-            names = ["kepler2", "two_planets", "tp0"]
+            names = ["kepler2", "two_planets", "moving", "tp0"]
         if fam == "whfast" and cfg["coord"] == "whds":
             names = [n for n in names if n != "tp1"] + ["tp1"]
         if c.thorough or focus:
@@ -488,8 +625,9 @@ def search(c, rebound, clib, d, syss, refs, focus):
                 key = (cfg["name"], nm, sg)
                 verdicts[key] = v
                 hist[v] = hist.get(v, 0) + 1
-                ratios.setdefault(fam, 0.0)
-                ratios[fam] = max(ratios[fam], ratio)
+                if not (v in ("too-large", "low-order", "exception") and c.is_known(finding_key(cfg, sd, sg, v))):
+                    ratios.setdefault(fam, 0.0)
+                    ratios[fam] = max(ratios[fam], ratio)        # margin statistics exclude the cases that are known findings
                 c.count((cfg["name"], nm, sg), nontrivial=(v in ("ok", "too-large", "low-order")))
                 if nrun <= 4:
                     c.sample({"config": cfg["name"], "system": nm, "direction": sg, "verdict": v, "detail": det})
@@ -503,10 +641,14 @@ def search(c, rebound, clib, d, syss, refs, focus):
                                                  how="rv/c01.py: make_sim + cfg.set; steps(n) with dt=T/n; compare positions with ref/C01_reference.py"))
     c.cov["verdict_histogram"] = hist
     c.cov["worst_error_over_unscaled_envelope_by_family"] = {k: float("%.3g" % v) for k, v in ratios.items()}
-    c.cov["rule"] = ("option lattice enumerated from the documented settings (WHFast coordinates x kernels x correctors x corrector2 x safe_mode, "
-                     "18 SABA types x safe_mode, 9x9 EOS pairs x n, JANUS orders, LEAPFROG, MERCURIUS, TRACE); quick: stratified random sample, one "
-                     "system and one time direction each; thorough: every member on 3-5 systems, both directions.  A case is non-trivial when at "
-                     "least two errors of its dt ladder lie in [1e-10, 1e-2] (a slope was evaluated) or the envelope was violated")
+    c.cov["rule"] = ("every member of the documented option lattice (WHFast 4 coordinate systems x 4 kernels x 6 first correctors x second corrector "
+                     "x safe_mode = 116 accepted combinations, 18 SABA types x safe_mode, 9x9 EOS pairs x n (1,2; thorough 1,2,3), JANUS 5 orders, LEAPFROG, "
+                     "MERCURIUS, TRACE) is run on a ladder of fixed steps tau = 0.8/2^k (in units of the inner orbital frequency) against the DOP853 "
+                     "reference; quick: two of its 4-6 systems (one with test particles) and one time direction, chosen by the seeded PRNG; thorough or "
+                     "after a broken proof obligation (then restricted to the affected family): all systems, both directions.  Plus IAS15 (4 adaptive "
+                     "modes x 3 epsilons, and fixed step), BS (3 tolerances), BS with a user ODE (coupled / uncoupled), SEI, the second-corrector "
+                     "safe/unsafe comparison and TRACE backwards (subprocess).  A case is non-trivial when a slope was evaluated (>= 3 errors in "
+                     "[1e-10, 1e-2] at tau <= 0.4) or the envelope was violated")
     extra_checks(c, rebound, clib, d, syss, ref)
 
 
@@ -568,6 +710,27 @@ def extra_checks(c, rebound, clib, d, syss, ref):
                 if errs and (errs[0] > 1e-3 or errs[1] > 1e-9 or errs[2] > 1e-9 or errs[2] > max(errs[0], 1e-10)):
                     c.violation("ias15:too-large", "IAS15 (%s) error %s on %s" % (mode, errs, nm),
                                 dict(system=sd, mode=mode, errors=errs, T=T))
+    # ---------------- IAS15 with a fixed step (epsilon = 0): a 15th-order scheme is at the reference accuracy for dt <= 1/n_inner
+    #                  (clean tree: 2.7e-12 at dt = 1, 6.6e-13 at dt = 0.5; a 1e-9 change of one c[] constant gives 2.4e-9)
+    for nm in ("two_planets", "heavy3", "tp1"):
+        sd = bysys[nm]
+        N = len(sd["bodies"])
+        for sg in (1, -1):
+            T = sg * sd["T"]
+            errs = []
+            for dt in (1.0, 0.5):
+                sim = make_sim(rebound, sd)
+                sim.integrator = "ias15"
+                sim.ri_ias15.epsilon = 0
+                n = int(round(abs(T) / dt))
+                sim.dt = T / n
+                sim.steps(n)
+                errs.append(pos_err(state_of(sim), ref[nm]["states"][repr(T)], N))
+                c.count(("ias15-fixed", nm, sg, dt))
+            res["ias15_fixed_step/%s/%+d" % (nm, sg)] = [float("%.2e" % e) for e in errs]
+            if errs[0] > 2e-9 or errs[1] > 2e-11:
+                c.violation("ias15:fixed-step", "IAS15 with fixed steps dt=1, 0.5 on %s: errors %s (15th order: expected at round-off)" % (nm, errs),
+                            dict(system=sd, errors=errs, T=T, epsilon=0))
     # ---------------- BS: error shrinks with the tolerance
     for nm in ("two_planets", "tp0"):
         sd = bysys[nm]
